@@ -37,7 +37,7 @@ T_t *g_cur; unsigned long g_cur_ver; unsigned long *g_cur_val;   /* watched slot
 T_t *g_cur_unused;     /* what _block_table holds (mirrors the field), and how many times it was replaced */
 T_t *g_seen; unsigned long g_seen_ver, g_obs_n; unsigned long *g_obs_val;   /* last table this thread observed: version, size, watched slot */
 T_t *g_swapped, *g_retired_tab; size_t g_win_oldn;
-V_t *g_self;
+V_t *g_self; unsigned long g_size0; unsigned g_loads;
 static unsigned slot_of(T_t *t) { return t == SLOT(0) ? 0 : (t == SLOT(1) ? 1 : 2); }
 static void env_step(void) {
   if (g_won || !nondet_bool()) return;
@@ -54,9 +54,10 @@ static void vf_havoc_ghosts(void) {
   g_cap = nondet_u64(); __CPROVER_assume(g_cap >= 1 && g_cap <= MAXN);
   g_store = malloc(4 * sizeof(unsigned long)); __CPROVER_assume(g_store != 0);
   g_self = malloc(sizeof(V_t)); __CPROVER_assume(g_self != 0);
+  g_self->_block_table = (T_t *)g_store;     /* assigned, not only assumed equal: a pointer that is merely assumed equal dereferences to an unconstrained object */
   g_j = nondet_u64(); g_expect = nondet_u64(); g_new = 0;
   g_tables_created = g_table_deleted = g_retired = 0; g_created = g_deleted = g_round_start = 0; g_round_n = 0; g_won = 0; g_bad_delete = 0; g_copy_ok = 1;
-  g_cur = SLOT(0); g_cur_val = (unsigned long *)nondet_u64(); g_cur_ver = 0; g_seen = SLOT(0); g_seen_ver = 0; g_obs_n = 0; g_obs_val = 0; g_swapped = 0; g_retired_tab = 0; g_win_oldn = 0;
+  g_cur = SLOT(0); g_cur_val = (unsigned long *)nondet_u64(); g_cur_ver = 0; g_seen = SLOT(0); g_seen_ver = 0; g_obs_n = 0; g_obs_val = 0; g_swapped = 0; g_retired_tab = 0; g_win_oldn = 0; g_size0 = nondet_u64(); g_loads = 0;
 }
 /* ---- stubs */
 T_t *V128_create_block_table(unsigned long num) {
@@ -88,7 +89,10 @@ static void *vf_memcpy(void *dst, void *src, unsigned long n) {
 #define memcpy vf_memcpy
 void *vf_atomic_load_ptr(void **p, int order, int site) {
   __CPROVER_assert(order == 2 || order == 5, "K6 C04.growth the block table is read with acquire");
-  env_step(); observe(); return *p;
+#ifndef VF_FAST_JOB     /* fast-path job: an environment step before the function's first action is subsumed by the arbitrary initial table */
+  env_step();
+#endif
+  g_loads++; observe(); return *p;
 }
 _Bool vf_atomic_compare_exchange_strong_ptr(void **p, void **expected, void *desired, int success, int failure, int site) {
   __CPROVER_assert((success == 4 || success == 5) && (failure == 2 || failure == 5), "K6 C04.growth the table is published with acq_rel and re-read with acquire");
@@ -113,6 +117,21 @@ __CPROVER_assigns(g_self->_block_table, __CPROVER_object_whole(g_store), g_new, 
 __CPROVER_ensures(g_tables_created == 1 && !g_bad_delete && g_copy_ok)
 __CPROVER_ensures(g_won ==> (__CPROVER_return_value == g_new && g_retired == 1 && g_retired_tab == g_swapped && g_table_deleted == 0 && g_created - g_deleted == g_expect - g_win_oldn))
 __CPROVER_ensures(!g_won ==> (__CPROVER_return_value == g_seen && g_obs_n >= g_expect && g_retired == 0 && g_table_deleted == 1 && g_created == g_deleted))
+;
+/* fast path: one acquire read of the published table; the observed table is returned as it is only when it is big enough, and then nothing is
+ * created, published, retired or freed; otherwise the slow path is entered with exactly the table observed (its contract's precondition is an
+ * obligation here) and its result is handed on.  "Qualified" (size >= expect) then holds in all three cases: hit (size0 >= expect),
+ * lose (g_obs_n >= g_expect) and win (the CAS stub asserts the published table has exactly the asked-for size). */
+T_t *V128_get_qualified_block_table(V_t *self, unsigned long expect)
+__CPROVER_requires(__CPROVER_pointer_equals(self, g_self) && self->_block_table == SLOT(0) && g_cur == SLOT(0) && g_seen == SLOT(0) && g_size0 == SLOT(0)->size && g_size0 <= g_cap)
+__CPROVER_requires(expect == g_expect && expect <= g_cap && g_cap <= MAXN && g_loads == 0)
+__CPROVER_requires(g_created == 0 && g_deleted == 0 && g_tables_created == 0 && g_table_deleted == 0 && g_retired == 0 && g_cur_ver == 0 && g_seen_ver == 0 && !g_won)
+__CPROVER_assigns(g_self->_block_table, __CPROVER_object_whole(g_store), g_new, g_tables_created, g_table_deleted, g_retired, g_created, g_deleted, g_round_start, g_round_n, g_won, g_bad_delete, g_copy_ok,
+                  g_cur, g_cur_val, g_cur_ver, g_seen, g_seen_ver, g_obs_n, g_obs_val, g_swapped, g_retired_tab, g_win_oldn, g_loads)
+__CPROVER_ensures(g_loads == 1)
+__CPROVER_ensures(g_tables_created == 0 ==> (g_size0 >= expect && __CPROVER_return_value == SLOT(0) && SLOT(0)->size == g_size0 && g_self->_block_table == SLOT(0) && g_created == 0 && g_deleted == 0 && g_retired == 0 && g_table_deleted == 0 && !g_won))
+__CPROVER_ensures(g_tables_created <= 1 && (g_size0 < expect ==> g_tables_created == 1))
+__CPROVER_ensures(g_tables_created == 1 ==> ((g_won ? (__CPROVER_return_value == g_new && g_retired == 1 && g_table_deleted == 0) : (__CPROVER_return_value == g_seen && g_obs_n >= g_expect && g_retired == 0 && g_table_deleted == 1 && g_created == g_deleted))))
 ;
 #define SEEN_OK (g_seen_ver <= g_cur_ver && (g_seen == SLOT(0) || g_seen == SLOT(1) || g_seen == SLOT(2)) && g_seen->size == g_obs_n \
    && (g_cur == SLOT(0) || g_cur == SLOT(1) || g_cur == SLOT(2)) && g_self->_block_table == g_cur && (g_seen_ver == g_cur_ver ==> (g_seen == g_cur && g_obs_val == (g_j < g_obs_n ? g_cur_val : (unsigned long *)0))) && g_cur->size >= g_obs_n && g_cur->size <= g_cap && g_cap <= MAXN && g_expect <= g_cap)
